@@ -453,6 +453,35 @@ func judgeC03(hi *Hist) []*Violation {
 		row := last.Rows[g.Main].Text
 		checkDecorations(hi, facts[g.Bar], row, fin.Completed && !fin.Aborted, fin.Aborted && !fin.Completed, add)
 	}
+	if isCancelled && !faulted(hi) && hi.InjectAt < 0 && len(last.Spy) <= len(last.Groups) {
+		// a bar that had finished by its own operations before the container was cancelled, and is set
+		// to be removed, is retired by the render passes the container makes while it shuts down
+		cancelInv := len(hi.Log)
+		for _, op := range hi.Ops {
+			if (op.Op.K == h.OpCancel || op.Op.K == h.OpShutdown) && op.Inv < cancelInv {
+				cancelInv = op.Inv
+			}
+		}
+		for _, bf := range facts {
+			if !bf.Added || bf.Final == nil || bf.Queued || poppable(hi, bf) || !bf.Sequential || len(bf.Succ) > 0 {
+				continue
+			}
+			// (retiring takes two finished renders: one must have happened before the cancellation,
+			// the first shutdown pass is the second, and a further pass follows because the heap changed)
+			drawnFinished := false
+			for i := 0; i < cancelInv && i < len(hi.Log); i++ {
+				if e := &hi.Log[i]; e.Kind == h.EvSpy && e.ID == bf.Idx {
+					if rec := e.V.(h.SpyRec); rec.Completed || rec.Aborted {
+						drawnFinished = true
+					}
+				}
+			}
+			if drawnFinished && bf.TermAt >= 0 && bf.TermAt < cancelInv && removable(hi, bf) && seen[bf.Idx] > 0 {
+				note("c03_removed_before_cancel_checked")
+				add("removed-bar-present", "bar %d finished before the container was cancelled and is set to be removed but is still in the last frame: %s", bf.Idx, last)
+			}
+		}
+	}
 	if relaxed {
 		return out
 	}
